@@ -1446,3 +1446,40 @@ Proof.
   now apply recover_stable.
 Qed.
 
+
+(* ---------- final states are fixed points of recovery ---------- *)
+(* A unit at rest in a final state — Succeeded, Failed or Canceled — with an intact record is left
+   exactly as it is by a restart (Restart of a command unit returns at once for a complete state
+   and only watches a cancelled one; a started remote unit is only watched; an unknown unit is
+   never touched): no file but the lock file changes and the daemon answers the record. *)
+Theorem final_states_fixed_thm : forall types x s,
+  uf_dir x = true -> uf_status x = Some (encode s) -> st_final (s_state s) = true ->
+  (kind_of types (s_wtype s) = KRemote -> started s = true) ->
+  exists known mon,
+    recover types x = (locked x, mkView true known s mon) /\ core (locked x) = core x.
+Proof.
+  intros types x s Hd Hs Hf Hrem. rewrite (recover_intact types x s Hd Hs).
+  destruct (kind_of types (s_wtype s)) eqn:Ek.
+  - now exists false, false.
+  - unfold st_final in Hf. destruct (st_complete (s_state s)) eqn:Ec.
+    + now exists true, false.
+    + cbn [orb] in Hf. apply N.eqb_eq in Hf. rewrite Hf. cbn. now exists true, true.
+  - rewrite (Hrem eq_refl). now exists true, true.
+Qed.
+
+(* ... and so by any number of restarts *)
+Theorem final_states_fixed_cycles_thm : forall types x s k,
+  uf_dir x = true -> uf_status x = Some (encode s) -> st_final (s_state s) = true ->
+  (kind_of types (s_wtype s) = KRemote -> started s = true) ->
+  core (cycles types x k) = core x /\ v_status (snd (recover types (cycles types x k))) = s.
+Proof.
+  intros types x s k Hd Hs Hf Hrem.
+  assert (Hstep : forall y, core y = core x ->
+            exists kn mn, recover types y = (locked y, mkView true kn s mn) /\ core (locked y) = core y).
+  { intros y Hy. unfold core in Hy. inversion Hy as [[E1 E2 E3 E4]].
+    apply final_states_fixed_thm; try congruence; auto. }
+  assert (H : core (cycles types x k) = core x).
+  { induction k as [|k IH]; [reflexivity|]. simpl.
+    destruct (Hstep _ IH) as [kn [mn [E C]]]. rewrite E. cbn [fst]. now rewrite C. }
+  split; [exact H|]. destruct (Hstep _ H) as [kn [mn [E C]]]. now rewrite E.
+Qed.
